@@ -105,6 +105,10 @@ package props
 //@   let n := len(args)
 //@   track   n, a, b, a.Value, b.Value
 //@   ensures n >= 2 && a != nil && b != nil ==> isT(res, *object.PanInt) && as(res, *object.PanInt).Value == (a.Value > b.Value ? 1 : (a.Value == b.Value ? 0 : 0 - 1))
+// C18: the result is a plain int (prototype Int) whatever the receiver descends from, like Str#<=> and Float#<=>:
+// Comparable derives <, ==, > by comparing it with the literals -1, 0, 1, and Int#== demands equal prototypes
+//@   ensures n >= 2 && a != nil && b != nil ==> as(res, *object.PanInt).proto == object.BuiltInIntObj
+//@   also    C18
 //@   assigns nothing
 //
 //@ func props.IntProps["**"](env, kwargs, args) res
@@ -324,4 +328,60 @@ package props
 //@   ensures  len(args) >= 1 && hasSlot(args[0], "_error") ==> isT(res, *object.PanArr) && fresh(res) && len(as(res, *object.PanArr).Elems) == 2 && as(res, *object.PanArr).Elems[0] == object.BuiltInNil && as(res, *object.PanArr).Elems[1] == slotOf(args[0], "_error")
 //@   ensures  !(len(args) >= 1 && hasSlot(args[0], "_error")) ==> isT(res, *object.PanErr)
 //@   assigns  EC
+//
+// ---- C18: equality and ordering built-ins (closed forms) and their laws ---------------------------------
+//@ props C18
+//@ spec macro eqInt(x object.PanObject, y object.PanObject) bool = traceInt(x) != nil && traceInt(y) != nil && traceInt(x).proto == traceInt(y).proto && traceInt(x).Value == traceInt(y).Value
+//@ spec macro cmpInt(x int, y int) int = x > y ? 1 : (x == y ? 0 : 0 - 1)
+//@ func props.IntProps["=="](env, kwargs, args) res
+//@   uses     traceInt_def
+//@   requires argsOK(args)
+//@   ensures  len(args) < 2 ==> isT(res, *object.PanErr)
+//@   ensures  len(args) >= 2 ==> res == (eqInt(args[0], args[1]) ? object.BuiltInTrue : object.BuiltInFalse)
+//@   assigns  nothing
+// != is the negation of == whenever the receiver is an int (the only way this built-in is reached)
+//@ func props.IntProps["!="](env, kwargs, args) res
+//@   uses     traceInt_def
+//@   requires argsOK(args)
+//@   ensures  len(args) < 2 ==> isT(res, *object.PanErr)
+//@   ensures  len(args) >= 2 && traceInt(args[0]) != nil ==> res == (eqInt(args[0], args[1]) ? object.BuiltInFalse : object.BuiltInTrue)
+//@   assigns  nothing
+//@ func props.FloatProps["=="](env, kwargs, args) res
+//@   uses     traceFloat_def
+//@   requires argsOK(args)
+//@   ensures  len(args) < 2 ==> isT(res, *object.PanErr)
+//@   ensures  len(args) >= 2 ==> res == (traceFloat(args[0]) != nil && traceFloat(args[1]) != nil && feq(traceFloat(args[0]).Value, traceFloat(args[1]).Value) ? object.BuiltInTrue : object.BuiltInFalse)
+//@   assigns  nothing
+//@ func props.FloatProps["<=>"](env, kwargs, args) res
+//@   requires argsOK(args)
+//@   ensures  !isT(res, *object.PanErr) ==> isT(res, *object.PanInt) && as(res, *object.PanInt).proto == object.BuiltInIntObj && 0 - 1 <= as(res, *object.PanInt).Value && as(res, *object.PanInt).Value <= 1
+//@   assigns  nothing
+//@ func props.StrProps["=="](env, kwargs, args) res
+//@   requires argsOK(args)
+//@   ensures  len(args) < 2 ==> isT(res, *object.PanErr)
+//@   ensures  len(args) >= 2 ==> res == ((args[0] == object.BuiltInStrObj && args[1] == object.BuiltInStrObj) || (isT(args[0], *object.PanStr) && isT(args[1], *object.PanStr) && as(args[0], *object.PanStr).Value == as(args[1], *object.PanStr).Value) ? object.BuiltInTrue : object.BuiltInFalse)
+//@   assigns  nothing
+//@ func props.checkStrInfixArgs(args, propName) self, other, err
+//@   requires argsOK(args)
+//@   ensures  err == nil ==> self != nil && other != nil && len(args) >= 2
+//@   assigns  nothing
+//@ func props.StrProps["<=>"](env, kwargs, args) res
+//@   requires argsOK(args)
+//@   ensures  !isT(res, *object.PanErr) ==> isT(res, *object.PanInt) && as(res, *object.PanInt).proto == object.BuiltInIntObj
+//@   assigns  nothing
+//@ func props.NilProps["=="](env, kwargs, args) res
+//@   uses     traceNil_def
+//@   requires argsOK(args)
+//@   ensures  len(args) < 2 ==> isT(res, *object.PanErr)
+//@   ensures  len(args) >= 2 ==> res == (traceNil(args[0]) != nil && traceNil(args[1]) != nil ? object.BuiltInTrue : object.BuiltInFalse)
+//@   assigns  nothing
+//
+// the laws, over the closed forms (pure lemmas: no code involved)
+//@ lemma eqInt_symmetric: forall x object.PanObject, y object.PanObject :: eqInt(x, y) <==> eqInt(y, x)
+//@ lemma eqInt_reflexive: forall x object.PanObject :: traceInt(x) != nil ==> eqInt(x, x)
+//@ lemma eqInt_transitive: forall x object.PanObject, y object.PanObject, z object.PanObject :: eqInt(x, y) && eqInt(y, z) ==> eqInt(x, z)
+//@ lemma cmpInt_antisymmetric: forall a int, b int :: cmpInt(a, b) == 0 - cmpInt(b, a)
+//@ lemma cmpInt_trichotomy: forall a int, b int :: (cmpInt(a, b) == 0 - 1 || cmpInt(a, b) == 0 || cmpInt(a, b) == 1) && (cmpInt(a, b) == 0 <==> a == b)
+//@ lemma cmpInt_transitive: forall a int, b int, c int :: cmpInt(a, b) <= 0 && cmpInt(b, c) <= 0 ==> cmpInt(a, c) <= 0
+//@ lemma cmpInt_transitive_strict: forall a int, b int, c int :: cmpInt(a, b) == 0 - 1 && cmpInt(b, c) <= 0 ==> cmpInt(a, c) == 0 - 1
 
